@@ -1,6 +1,6 @@
 From Coq Require Extraction ExtrOcamlBasic.
 From Coq Require Import FMapPositive.
-From OxiVerif Require Import Base.Conv DD.Table DD.Sem DD.Build DD.Apply Num.I64 DD.ApplyMtbdd.
+From OxiVerif Require Import Base.Conv DD.Table DD.Sem DD.Build DD.Apply Num.I64 Num.F64 DD.ApplyMtbdd.
 Extraction Language OCaml.
 Extraction "model.ml" conv_anchor
   Table.sem_edge Table.wf_b Table.famz Table.mkSnap Table.mkNode Table.mkEdge Table.nlevels Table.edge_eqb
@@ -12,4 +12,6 @@ Extraction "model.ml" conv_anchor
   ApplyMtbdd.code ApplyMtbdd.decode ApplyMtbdd.get_terminal ApplyMtbdd.mt_view ApplyMtbdd.mop_eval
   ApplyMtbdd.mt_tb ApplyMtbdd.mt_apply_bin ApplyMtbdd.mt_apply_ite ApplyMtbdd.mt_restrict_inner
   ApplyMtbdd.mt_restrict ApplyMtbdd.mt_const ApplyMtbdd.mt_var ApplyMtbdd.mt_eval ApplyMtbdd.mt_ok_b
-  ApplyMtbdd.cube_lits.
+  ApplyMtbdd.cube_lits
+  F64.f64_from_bits F64.f64_normalb F64.f64_add F64.f64_sub F64.f64_mul F64.f64_div
+  F64.f64_min F64.f64_max F64.f64_is_zero F64.f64_is_one F64.f64_is_nan F64.f64_zero F64.f64_one F64.f64_nan.
